@@ -138,6 +138,10 @@ fn caps_float(capacity: usize) -> (usize, usize, usize) {
 
 type Cache = TinyLFU<u64, u64, Lsn>;
 
+/// finding F15 (Poll: no fixed slack over the currently pinned count): the adversary, and any other Poll history that shows it
+const SIG_F15: &str = "bound-poll:excess-grows-with-blockers";
+const SIG_F15_RANDOM: &str = "bound-poll:history-exceeds-capacity+pinned+32";
+
 // ------------------------------------------------------------------ one single-thread case
 #[derive(Default, Clone)]
 struct Stats { ops: BTreeMap<&'static str, u64>, evictions: u64, kept_pinned: u64, maint_rounds: u64, max_excess: i64, max_excess_notify: i64, max_excess_poll: i64, max_resident: u64, panics: u64 }
@@ -148,6 +152,8 @@ struct Sim {
     hdr: Header, cache: Cache, refmap: HashMap<u64, u64>, pins: HashMap<u64, u32>, maybe_region: HashSet<u64>,
     quiet_unpin_seen: bool, msgs: u64, handles: Vec<Option<(u64, u64)>>, lock_ids: HashMap<u64, u64>, next_id: u64,
     max_cap: usize, universe_hi: u64, evicted_any: bool, kept_any: bool,
+    /// first point where a Poll history exceeds capacity + currently pinned + 32 (finding F15): recorded, the history goes on
+    soft: Option<(String, String, usize)>, step_no: usize,
 }
 
 impl Sim {
@@ -156,7 +162,7 @@ impl Sim {
         let cache = Cache::new(hdr.cap, if hdr.poll { UnpinStrategy::Poll } else { UnpinStrategy::Notify }, MaintenanceMode::Piggyback);
         let (w, _, m) = caps_float(hdr.cap);
         Sim { hdr, cache, refmap: HashMap::new(), pins: HashMap::new(), maybe_region: HashSet::new(), quiet_unpin_seen: false, msgs: 0,
-              handles: vec![], lock_ids: HashMap::new(), next_id: 0, max_cap: w + m, universe_hi, evicted_any: false, kept_any: false }
+              handles: vec![], lock_ids: HashMap::new(), next_id: 0, max_cap: w + m, universe_hi, evicted_any: false, kept_any: false, soft: None, step_no: 0 }
     }
     fn probe(&self, k: u64) -> Option<u64> { self.cache.entry(k, |e| match e { Entry::Occupied(o) => Some(*o.get()), Entry::Vacant(_) => None }) }
     fn pinned_kv(&self, k: u64, v: u64) -> bool { let t = if self.hdr.tokv { v } else { k }; self.pins.get(&t).copied().unwrap_or(0) > 0 }
@@ -250,6 +256,8 @@ impl Sim {
         if self.hdr.poll { st.max_excess_poll = st.max_excess_poll.max(excess); } else if !self.hdr.tokv && !self.quiet_unpin_seen { st.max_excess_notify = st.max_excess_notify.max(excess); }
         if !self.hdr.poll && !self.hdr.tokv && !self.quiet_unpin_seen && excess > 32 {
             flag("bound-notify", format!("resident {resident} > capacity {} + pinned {pinned_now} + 32", self.max_cap)); }
+        if self.hdr.poll && excess > 32 && self.soft.is_none() {
+            self.soft = Some((SIG_F15_RANDOM.to_string(), format!("Poll: resident {resident} > capacity {} + currently pinned {pinned_now} + 32", self.max_cap), self.step_no)); }
         let region = self.maybe_region.iter().filter(|k| self.refmap.contains_key(k)).count() as i64;
         if resident > self.max_cap as i64 + region + 32 { flag("bound-partial", format!("resident {resident} > capacity {} + possibly-in-pinned-region {region} + 32", self.max_cap)); }
         fail
@@ -277,6 +285,7 @@ fn run_case(hdr: &Header, universe_hi: u64, mut next: impl FnMut(&Sim, usize) ->
                 fail = Some(Fail { sig: panic_sig(), desc: format!("`{}` panicked inside the cache", op.text()), at: i }); break; }
             Ok(ans) => {
                 LOG_ON.store(false, Ordering::Relaxed);
+                sim.step_no = i;
                 let j = sim.judge(&op, &ans, &ev, st);
                 LOG_ON.store(true, Ordering::Relaxed);
                 let mut full = ans.clone();
@@ -287,6 +296,7 @@ fn run_case(hdr: &Header, universe_hi: u64, mut next: impl FnMut(&Sim, usize) ->
         }
         i += 1;
     }
+    if fail.is_none() { if let Some((sig, desc, at)) = sim.soft.take() { fail = Some(Fail { sig, desc, at }); } }
     let nontrivial = sim.evicted_any && sim.kept_any;
     // leak the cache after a panic (its internal lists may be inconsistent; Drop walks them)
     if panicked { std::mem::forget(sim); }
@@ -566,15 +576,22 @@ fn main() {
         let mut hr = Rng::new(a.seed ^ 0xF0);
         for i in 0..2000u64 { let k = if i < 400 { i } else { hr.next() >> hr.below(64) }; out.line(&format!("hash {k}"), &format!("hash {}", hasher.hash_one(&k))); }
         // canonical replay of the known finding first (shard with the base seed only would do; it is cheap)
+        // the history of the FIXED finding F4 must run clean (a panic here = the defect is back)
         { let (h, ops) = canonical_f4(); let co = replay_ops(&h, &ops, &mut st); emit(&co, &mut out); evals += 1;
-          if let Some(fl) = &co.fail { fails.push((fl.sig.clone(), format!("[canonical F4] {}", fl.desc), case_text(&h, &ops[..=fl.at]))); } }
-        // the Poll adversary family on the real cache: excess of resident over capacity + pinned, per number of blockers
+          if let Some(fl) = &co.fail { fails.push((fl.sig.clone(), format!("[history of fixed finding F4] {}", fl.desc), case_text(&h, &ops[..=fl.at]))); } }
+        // finding F15, canonical: 2 blockers, 2 rounds (= `pollAdversary` of Props/C16.lean)
+        { let (h, ops) = poll_adversary(2, 2); let mut st2 = Stats::default();
+          let co = replay_ops(&h, &ops, &mut st2); emit(&co, &mut out); evals += 1;
+          match &co.fail {
+              Some(fl) if fl.sig == SIG_F15_RANDOM => fails.push((SIG_F15.to_string(), format!("[poll adversary, 2 blockers, 2 rounds] {}", fl.desc), case_text(&h, &ops[..=fl.at]))),
+              Some(fl) => fails.push((fl.sig.clone(), format!("[poll adversary, 2 blockers] {}", fl.desc), case_text(&h, &ops[..=fl.at]))),
+              None => {} } }
+        // the family on the real cache (measurement): excess of resident over capacity + pinned, per number of blockers
         for b in [0u64, 2, 5, 10, 20, 40] {
             let (h, ops) = poll_adversary(b, b + 6); let mut st2 = Stats::default();
             let co = replay_ops(&h, &ops, &mut st2); emit(&co, &mut out); evals += 1;
-            let last = co.lines.iter().rev().find(|l| l.0 == "len").and_then(|l| l.1.strip_prefix("len ").and_then(|x| x.split_whitespace().next()).and_then(|x| x.parse::<i64>().ok())).unwrap_or(-1);
-            poll_probe.push((b, last - 2 - b as i64));
-            if let Some(fl) = &co.fail { fails.push((fl.sig.clone(), format!("[poll adversary b={b}] {}", fl.desc), case_text(&h, &ops[..=fl.at]))); }
+            poll_probe.push((b, st2.max_excess_poll));
+            if let Some(fl) = &co.fail { if fl.sig != SIG_F15_RANDOM { fails.push((fl.sig.clone(), format!("[poll adversary b={b}] {}", fl.desc), case_text(&h, &ops[..=fl.at]))); } }
         }
         let n_cases = a.n.unwrap_or(if quick { 260 } else { 1500 });
         let mut master = Rng::new(a.seed); let mut shrunk = 0; let mut stopped_early = false;
